@@ -33,6 +33,8 @@ type ICase struct {
 	Assign      map[string][]ITarget `json:"assign"`
 	Proxy       string               `json:"proxy"`
 	SelfMonitor bool                 `json:"selfMonitor"`
+	// a configuration the same injector was given (and wrote a file for) before this one: a reload
+	Before string `json:"before,omitempty"`
 }
 type ITarget struct {
 	Hash   uint64            `json:"hash"`
@@ -169,6 +171,16 @@ func genInjectCase(r *Rng) *ICase {
 			}
 			c.Assign[jn] = append(c.Assign[jn], ITarget{Hash: h, Labels: lb})
 		}
+	}
+	// a reload: the injector already holds an earlier configuration - the same one with other external
+	// labels / another interval (settings the config hash ignores or not), or an unrelated one
+	switch r.Intn(10) {
+	case 0, 1:
+		c.Before = strings.Replace(c.Config, "    cluster: c\n", "    cluster: old\n    replica: r0\n", 1)
+	case 2:
+		c.Before = strings.Replace(c.Config, "evaluation_interval: 1m", "evaluation_interval: 2m", 1)
+	case 3:
+		c.Before = "global:\n  scrape_interval: 20s\n  external_labels:\n    cluster: other\nscrape_configs:\n- job_name: gone-job\n  static_configs:\n  - targets: ['h:1']\n"
 	}
 	return c
 }
@@ -385,6 +397,15 @@ func runInject(a Args) *Result {
 		for jn, ts := range c.Assign {
 			for _, t := range ts {
 				tmap[jn] = append(tmap[jn], &target.Target{Hash: t.Hash, Labels: labels.FromMap(t.Labels)})
+			}
+		}
+		if c.Before != "" {
+			cmb := prom.NewConfigManager()
+			if err := cmb.ReloadFromRaw([]byte(c.Before)); err == nil {
+				if injr.ApplyConfig(cmb.ConfigInfo()) == nil {
+					_ = injr.UpdateTargets(tmap)
+					res.count("reload_after_earlier_config")
+				}
 			}
 		}
 		if err := injr.ApplyConfig(cm.ConfigInfo()); err != nil {
